@@ -4,14 +4,14 @@ CONSTANTS
   NDown = 2
   Retries = 3
   NegAttempts = 10
-  MaxLoss = 5
+  MaxLoss = 3
   MaxNegLoss = 2
   MaxRestarts = 0
-  MaxSlow = 0
-  PeerModes <- ModesAll
+  MaxSlow = 1
+  PeerModes <- ModesSL
   DenyReplies <- DenyOne
   AckTails <- TailsRssi
-  Bug = "sl_on_any_3_bytes"
+  Bug = "rsp_timeout"
 INVARIANT PropertyHolds
 INVARIANT CompleteAtRest
 CHECK_DEADLOCK FALSE
